@@ -122,6 +122,12 @@ func c01(c *Ctx) {
 	}
 
 	// R4 size trigger
+	// R10 (shared with C15.R6): spans reach each processor once only if the processor list readers iterate is never edited in place
+	ruleFlushWaitStops(c, ix, "R9")
+
+	c.Rule("R10", "E5 immutability (alias tracking, shared)", "the span-processor list that span.End iterates without a lock is never written in place by Register/Unregister/Shutdown: an in-place removal makes a concurrent End skip one processor and call another twice (a span exported twice, or never)", 3)
+	rulePublishedListImmutable(c, ix, "R10")
+
 	c.Rule("R4", "E3 dominance + comparison form", "every append to batch is followed in its critical section by len(batch) >=|== MaxExportBatchSize whose true outcome reaches exportSpans before the next receive", 2)
 	exportSpans := ix.Func("(*batchSpanProcessor).exportSpans")
 	if exportSpans == nil {
@@ -963,4 +969,122 @@ func classifyUse2(f *FuncInfo, e ast.Expr) (string, ast.Node) {
 		return true
 	})
 	return use, ctx
+}
+
+// ruleFlushWaitStops: ForceFlush hands a marker with a private acknowledgement channel to the queue worker and waits for it. The
+// worker may already be gone (Shutdown completed between ForceFlush's stopped test and the enqueue): every select that waits on
+// that acknowledgement therefore also waits on the processor's stop channel — with a context that has no deadline the call
+// would otherwise never return. Shared by C01.R9 and C15.R9.
+func ruleFlushWaitStops(c *Ctx, ix *PkgIndex, rule string) {
+	info := ix.Pkg.TypesInfo
+	fn := c.Fn(ix, rule, "(*batchSpanProcessor).ForceFlush")
+	fStop := lookupField(ix.Pkg, "batchSpanProcessor", "stopCh")
+	if fn == nil || fStop == nil {
+		return
+	}
+	// local channels created in ForceFlush (the acknowledgement)
+	acks := map[types.Object]bool{}
+	inspectNoLit(fn.Body(), func(n ast.Node) bool {
+		if as, ok := n.(*ast.AssignStmt); ok && len(as.Lhs) == 1 && len(as.Rhs) == 1 {
+			if call, ok := unparen(as.Rhs[0]).(*ast.CallExpr); ok && builtinName(info, call) == "make" && len(call.Args) >= 1 {
+				if _, isChan := info.TypeOf(call.Args[0]).Underlying().(*types.Chan); isChan {
+					if o := objOf(info, as.Lhs[0]); o != nil {
+						acks[o] = true
+					}
+				}
+			}
+		}
+		return true
+	})
+	// … that are put into the marker handed to the worker
+	inMarker := map[types.Object]bool{}
+	inspectNoLit(fn.Body(), func(n ast.Node) bool {
+		if cl, ok := n.(*ast.CompositeLit); ok {
+			if nn := namedOf(info.TypeOf(cl)); nn != nil && nn.Obj().Name() == "forceFlushSpan" {
+				ast.Inspect(cl, func(m ast.Node) bool {
+					if id, ok := m.(*ast.Ident); ok && acks[info.Uses[id]] {
+						inMarker[info.Uses[id]] = true
+					}
+					return true
+				})
+			}
+		}
+		return true
+	})
+	acks = inMarker
+	n, bad := 0, ""
+	var badPos token.Pos
+	recvOf := func(cc *ast.CommClause) ast.Expr {
+		var e ast.Expr
+		switch s := cc.Comm.(type) {
+		case *ast.ExprStmt:
+			e = s.X
+		case *ast.AssignStmt:
+			if len(s.Rhs) == 1 {
+				e = s.Rhs[0]
+			}
+		}
+		if u, ok := unparen(e).(*ast.UnaryExpr); ok && u.Op == token.ARROW {
+			return u.X
+		}
+		return nil
+	}
+	inspectNoLit(fn.Body(), func(nd ast.Node) bool {
+		sel, ok := nd.(*ast.SelectStmt)
+		if !ok {
+			return true
+		}
+		waitsAck, hasStop := false, false
+		for _, st := range sel.Body.List {
+			cc, ok := st.(*ast.CommClause)
+			if !ok || cc.Comm == nil {
+				continue
+			}
+			ch := recvOf(cc)
+			if ch == nil {
+				continue
+			}
+			if o := objOf(info, ch); o != nil && acks[o] {
+				waitsAck = true
+			}
+			if isField(info, ch, fStop) {
+				hasStop = true
+			}
+		}
+		if waitsAck {
+			n++
+			if !hasStop {
+				bad, badPos = "the select that waits for the marker's acknowledgement has no arm on stopCh", sel.Pos()
+			}
+		}
+		return true
+	})
+	// a bare receive from the acknowledgement channel outside a select blocks just the same
+	comm := map[ast.Stmt]bool{}
+	inspectNoLit(fn.Body(), func(nd ast.Node) bool {
+		if cc, ok := nd.(*ast.CommClause); ok && cc.Comm != nil {
+			comm[cc.Comm] = true
+		}
+		return true
+	})
+	inspectNoLit(fn.Body(), func(nd ast.Node) bool {
+		if es, ok := nd.(*ast.ExprStmt); ok && !comm[es] {
+			if u, ok := unparen(es.X).(*ast.UnaryExpr); ok && u.Op == token.ARROW {
+				if o := objOf(info, u.X); o != nil && acks[o] {
+					n++
+					bad, badPos = "the acknowledgement is awaited with a bare receive", es.Pos()
+				}
+			}
+		}
+		return true
+	})
+	if n == 0 {
+		return // ForceFlush does not wait on a private channel (another protocol): nothing to judge here
+	}
+	pos := fn.Pos()
+	if bad != "" {
+		pos = badPos
+	}
+	c.Check(bad == "", rule, "sdk/trace|(*batchSpanProcessor).ForceFlush|the wait for the marker also ends when the processor stops", at(ix.M, pos), itoa(n)+" wait(s), each with an arm on stopCh",
+		"a ForceFlush that enqueues its marker after Shutdown has completed (the queue has no reader any more) waits for an acknowledgement nobody sends — with a context without deadline it blocks forever: "+bad)
 }
